@@ -701,4 +701,123 @@ theorem runHist_nodup (ops : List HOp) : ∀ (s : Store) (pres : List Bytes),
       simp only [runHist]
       exact ih _ pres (h.sub (raws_reload_sub s now)) hn
 
+/-! ## ticket store with failing checkpoints -/
+
+
+/-- the issued blobs on disk -/
+def fraws (d : Disk) : List Bytes := match d.file with
+  | none => []
+  | some f => raws f
+
+/-- a list of stored blobs is consistent with what was presented and what is still to be issued -/
+structure Good (L pres future : List Bytes) : Prop where
+  nodup : L.Nodup
+  disj : ∀ r ∈ pres, r ∉ L
+  fresh : ∀ r ∈ L, r ∉ future
+
+theorem Good.sub {L L' pres future : List Bytes} (h : Good L pres future) (hs : L'.Sublist L) : Good L' pres future :=
+  ⟨h.nodup.sublist hs, fun r hr hm => h.disj r hr (hs.subset hm), fun r hr => h.fresh r (hs.subset hr)⟩
+
+theorem Good.weaken {L pres future : List Bytes} {x : Bytes} (h : Good L pres (x :: future)) : Good L pres future :=
+  ⟨h.nodup, h.disj, fun r hr hm => h.fresh r hr (List.mem_cons_of_mem _ hm)⟩
+
+theorem Good.nil (pres future : List Bytes) : Good [] pres future :=
+  ⟨List.nodup_nil, fun _ _ h => by simp at h, fun _ h => by simp at h⟩
+
+structure HInvF (d : Disk) (pres future : List Bytes) : Prop where
+  mem : Good (raws d.mem) pres future
+  file : Good (fraws d) pres future
+  nodupP : pres.Nodup
+  freshP : ∀ r ∈ pres, r ∉ future
+
+theorem fraws_checkpoint_ok (mem : Store) (d : Disk) : fraws (d.checkpoint mem true) = raws mem := rfl
+theorem fraws_checkpoint_fail (mem : Store) (d : Disk) : fraws (d.checkpoint mem false) = fraws d := rfl
+
+theorem fraws_checkpoint (mem : Store) (d : Disk) (w : Bool) {pres future : List Bytes}
+    (hm : Good (raws mem) pres future) (hf : Good (fraws d) pres future) :
+    Good (fraws (d.checkpoint mem w)) pres future := by
+  cases w
+  · exact hf
+  · exact hm
+
+theorem runHistF_nodup (ops : List HOpF) : ∀ (d : Disk) (pres : List Bytes),
+    HInvF d pres (issuedRawsF ops) → (issuedRawsF ops).Nodup → (runHistF d pres ops).2.Nodup := by
+  induction ops with
+  | nil => intro d pres h _; exact h.nodupP
+  | cons op r ih =>
+    intro d pres h hn
+    cases op with
+    | connect addr now w =>
+      simp only [issuedRawsF] at h hn
+      cases hl : d.mem.lookup addr with
+      | none =>
+        simp only [runHistF, Disk.connect, hl]
+        exact ih d pres h hn
+      | some t =>
+        have hsub := raws_erase_sub d.mem addr
+        have hmem' := h.mem.sub hsub
+        cases w with
+        | false =>
+          simp only [runHistF, Disk.connect, hl, Bool.false_eq_true, not_false_eq_true, ↓reduceIte]
+          exact ih _ pres ⟨hmem', h.file, h.nodupP, h.freshP⟩ hn
+        | true =>
+          cases hv : t.isValid now with
+          | false =>
+            simp only [runHistF, Disk.connect, hl, hv, not_true_eq_false, Bool.false_eq_true, ↓reduceIte]
+            exact ih _ pres ⟨hmem', hmem', h.nodupP, h.freshP⟩ hn
+          | true =>
+            simp only [runHistF, Disk.connect, hl, hv, not_true_eq_false, ↓reduceIte]
+            have hin := raw_mem_of_lookup hl
+            have hg : Good (raws (d.mem.erase addr)) (t.raw :: pres) (issuedRawsF r) := by
+              refine ⟨hmem'.nodup, ?_, hmem'.fresh⟩
+              intro x hx
+              rcases List.mem_cons.mp hx with rfl | hx'
+              · exact raw_not_in_erase h.mem.nodup hl
+              · exact hmem'.disj x hx'
+            refine ih _ _ ⟨hg, hg, ?_, ?_⟩ hn
+            · exact List.nodup_cons.mpr ⟨fun hp => h.mem.disj _ hp hin, h.nodupP⟩
+            · intro x hx
+              rcases List.mem_cons.mp hx with rfl | hx'
+              · exact h.mem.fresh _ hin
+              · exact h.freshP x hx'
+    | issue addr raw now w =>
+      simp only [issuedRawsF, List.nodup_cons] at h hn
+      obtain ⟨hfresh, hn'⟩ := hn
+      simp only [runHistF]
+      have hP : ∀ x ∈ pres, x ∉ issuedRawsF r := fun x hx hm => h.freshP x hx (List.mem_cons_of_mem _ hm)
+      unfold Disk.storeTicket
+      split
+      · exact ih d pres ⟨h.mem.weaken, h.file.weaken, h.nodupP, hP⟩ hn'
+      · have hraw : (⟨raw.take ticketKeyLength, raw.drop ticketKeyLength, now⟩ : Ticket).raw = raw := by
+          simp [Ticket.raw]
+        have hnot : raw ∉ raws d.mem := fun hm => h.mem.fresh raw hm List.mem_cons_self
+        have hsub := raws_erase_sub d.mem addr
+        have hg : Good (raws (d.mem.storeTicket addr raw now)) pres (issuedRawsF r) := by
+          unfold Store.storeTicket
+          rename_i hlen
+          rw [if_neg hlen]
+          simp only [raws, List.map_cons, hraw]
+          refine ⟨List.nodup_cons.mpr ⟨fun hm => hnot (hsub.subset hm), h.mem.nodup.sublist hsub⟩, ?_, ?_⟩
+          · intro x hx
+            simp only [List.mem_cons, not_or]
+            exact ⟨fun hxe => h.freshP x hx (hxe ▸ List.mem_cons_self), fun hm => h.mem.disj x hx (hsub.subset hm)⟩
+          · intro x hx
+            simp only [List.mem_cons] at hx
+            rcases hx with rfl | hx
+            · exact hfresh
+            · exact h.mem.weaken.fresh x (hsub.subset hx)
+        exact ih _ pres ⟨hg, fraws_checkpoint _ d w hg h.file.weaken, h.nodupP, hP⟩ hn'
+    | restart now =>
+      simp only [issuedRawsF] at h hn
+      simp only [runHistF]
+      refine ih _ pres ⟨?_, h.file, h.nodupP, h.freshP⟩ hn
+      unfold Disk.restart
+      cases hf : d.file with
+      | none => exact Good.nil _ _
+      | some f =>
+        have : fraws d = raws f := by simp [fraws, hf]
+        simp only
+        exact (this ▸ h.file).sub (raws_reload_sub f now)
+
+
 end O4.SS
